@@ -3,10 +3,8 @@ package c04
 import (
 	"fmt"
 	"math/rand/v2"
-	"regexp"
 	"strconv"
 	"strings"
-	"sync/atomic"
 
 	"github.com/ohler55/slip"
 
@@ -98,7 +96,7 @@ func addAux(l *ref.LL, symInit bool) {
 
 // variant lambda lists: constructs next to the grid (init forms that must be
 // evaluated, &allow-other-keys, &key without names). v selects the variant.
-const nVariants = 8
+const nVariants = 11
 
 func variant(base *ref.LL, v int) *ref.LL {
 	l := *base
@@ -130,9 +128,9 @@ func variant(base *ref.LL, v int) *ref.LL {
 			l.Req = []string{"a"}
 		}
 		if 0 < len(l.Opt) {
-			l.Opt[len(l.Opt)-1].Init = "(list a)"
+			l.Opt[len(l.Opt)-1].Init = "(c04-init 58 a)"
 		} else {
-			l.Opt = []ref.Param{{Name: "o", Init: "(list a)"}}
+			l.Opt = []ref.Param{{Name: "o", Init: "(c04-init 58 a)"}}
 		}
 	case 4: // key init form that is a computation
 		l.HasKey = true
@@ -147,9 +145,9 @@ func variant(base *ref.LL, v int) *ref.LL {
 			l.Req = []string{"a"}
 		}
 		if 0 < len(l.Keys) {
-			l.Keys[len(l.Keys)-1].Init = "(list a)"
+			l.Keys[len(l.Keys)-1].Init = "(c04-init 78 a)"
 		} else {
-			l.Keys = []ref.Param{{Name: "k", Init: "(list a)"}}
+			l.Keys = []ref.Param{{Name: "k", Init: "(c04-init 78 a)"}}
 		}
 	case 6: // aux whose init form is a bare variable
 		if first == "" {
@@ -165,6 +163,60 @@ func variant(base *ref.LL, v int) *ref.LL {
 		} else {
 			l.Opt = []ref.Param{{Name: "o", Init: "a"}}
 		}
+	case 8: // every init form has a side effect and reads every earlier parameter
+		return traced(base)
+	case 9: // the init form of the first key names a LATER key
+		l.HasKey = true
+		for len(l.Keys) < 2 {
+			l.Keys = append(l.Keys, ref.Param{Name: keyNames[len(l.Keys)]})
+		}
+		l.Keys[0].Init = "(c04-init 79 " + l.Keys[len(l.Keys)-1].Name + ")"
+	case 10: // the init form of an optional names a LATER key
+		l.HasKey = true
+		if len(l.Keys) == 0 {
+			l.Keys = []ref.Param{{Name: "k"}}
+		}
+		if len(l.Opt) == 0 {
+			l.Opt = []ref.Param{{Name: "o"}}
+		}
+		l.Opt[len(l.Opt)-1].Init = "(c04-init 59 " + l.Keys[0].Name + ")"
+	}
+	return &l
+}
+
+// traced gives every optional, key and aux parameter an init form with a
+// visible side effect that reads every parameter before it:
+// (c04-init N earlier...). The trace of a call then shows which init forms
+// were evaluated, how often and in which order; the values show what they saw.
+func traced(base *ref.LL) *ref.LL {
+	l := *base
+	l.Opt = append([]ref.Param{}, base.Opt...)
+	l.Keys = append([]ref.Param{}, base.Keys...)
+	earlier := append([]string{}, l.Req...)
+	form := func(id int) string {
+		if len(earlier) == 0 {
+			return fmt.Sprintf("(c04-init %d)", id)
+		}
+		return fmt.Sprintf("(c04-init %d %s)", id, strings.Join(earlier, " "))
+	}
+	for i := range l.Opt {
+		l.Opt[i].Init = form(51 + i)
+		earlier = append(earlier, l.Opt[i].Name)
+	}
+	if l.Rest != "" {
+		earlier = append(earlier, l.Rest)
+	}
+	for i := range l.Keys {
+		l.Keys[i].Init = form(71 + i)
+		earlier = append(earlier, l.Keys[i].Name)
+	}
+	if 0 < len(base.Aux) {
+		l.Aux = nil
+		for i, n := range []string{"x", "y"} {
+			l.Aux = append(l.Aux, ref.Param{Name: n, Init: form(91 + i)})
+			earlier = append(earlier, n)
+		}
+		l.Aux = append(l.Aux, ref.Param{Name: "w"})
 	}
 	return &l
 }
@@ -234,6 +286,10 @@ func ownDefaults(l *ref.LL, args []string) []string {
 // or with a value equal to its own default - values an implementation might
 // confuse with "not supplied".
 const valuePerLL = 6
+
+// traced probes per lambda list: the value probes plus 4 positional counts x
+// 5 keyword tails, on the traced form of every lambda list of the grid.
+const tracedPerLL = valuePerLL + 20
 
 func valueProbe(l *ref.LL, sub int) []string {
 	v := []string{"nil", "t", "="}[sub%3]
@@ -394,9 +450,9 @@ func nVariantProbes() int { return nVariants * len(variantBases) * probePerLL }
 const ambientPerLL = 6
 
 type layout struct {
-	exh                                           *exhTable
-	probeStart, varStart, ambStart, valStart, rnd int
-	total                                         int
+	exh                                                     *exhTable
+	probeStart, varStart, ambStart, valStart, trcStart, rnd int
+	total                                                   int
 }
 
 var layouts = map[string]*layout{}
@@ -416,7 +472,8 @@ func lamLayout(tier string) *layout {
 	ly.varStart = ly.probeStart + nShapes*probePerLL
 	ly.ambStart = ly.varStart + nVariantProbes()
 	ly.valStart = ly.ambStart + nShapes*ambientPerLL
-	ly.rnd = ly.valStart + (nShapes+nVariants*len(variantBases))*valuePerLL
+	ly.trcStart = ly.valStart + (nShapes+nVariants*len(variantBases))*valuePerLL
+	ly.rnd = ly.trcStart + nShapes*tracedPerLL
 	ly.total = ly.rnd + nrand
 	layouts[tier] = ly
 	return ly
@@ -449,7 +506,7 @@ func genLam(r *rand.Rand, i int, tier string) Case {
 		c.Args = probeVector(c.LL, np, []int{0, 1, 8}[sub%3])
 		c.Ambient = true
 		c.Block = "ambient-probe"
-	case i < ly.rnd:
+	case i < ly.trcStart:
 		k := i - ly.valStart
 		if k < nShapes*valuePerLL {
 			c.LL = shape(k / valuePerLL)
@@ -461,10 +518,26 @@ func genLam(r *rand.Rand, i int, tier string) Case {
 		c.Args = valueProbe(c.LL, k%valuePerLL)
 		c.Ambient = (k/valuePerLL)%5 == 4
 		c.Block = "value-probe"
+	case i < ly.rnd:
+		k := i - ly.trcStart
+		c.LL = traced(shape(k / tracedPerLL))
+		sub := k % tracedPerLL
+		if sub < valuePerLL {
+			c.Args = valueProbe(c.LL, sub)
+		} else {
+			sub -= valuePerLL
+			tails := []int{0, 1, 2, 3, 8}
+			c.Args = probeVector(c.LL, nposChoices(c.LL)[sub/len(tails)], tails[sub%len(tails)])
+		}
+		c.Ambient = (k/tracedPerLL)%4 == 3
+		c.Block = "traced-probe"
 	default:
 		c.LL = shape(r.IntN(nShapes))
-		if r.IntN(5) == 0 {
+		switch r.IntN(6) {
+		case 0:
 			c.LL = variant(c.LL, r.IntN(nVariants))
+		case 1, 2:
+			c.LL = traced(c.LL)
 		}
 		c.Args = randomArgs(r, c.LL)
 		c.Ambient = r.IntN(4) == 0
@@ -499,10 +572,10 @@ func randomArgs(r *rand.Rand, l *ref.LL) []string {
 	}
 	nr, no := len(l.Req), len(l.Opt)
 	npos := nr + r.IntN(no+1)
-	switch r.IntN(12) {
+	switch r.IntN(8) {
 	case 0:
 		if 0 < nr {
-			npos = r.IntN(nr) // too few (a known deviation: kept a minority)
+			npos = r.IntN(nr) // too few
 		}
 	case 1:
 		npos = nr + no + 1 + r.IntN(2)
@@ -524,7 +597,7 @@ func randomArgs(r *rand.Rand, l *ref.LL) []string {
 		}
 		r.Shuffle(len(ks), func(i, j int) { ks[i], ks[j] = ks[j], ks[i] })
 		if r.IntN(8) == 0 && 0 < len(ks) {
-			ks = append(ks, fw.Pick(r, ks)) // duplicate (known deviation: minority)
+			ks = append(ks, fw.Pick(r, ks)) // duplicate
 		}
 		if r.IntN(8) == 0 {
 			ks = append(ks, foreign)
@@ -568,18 +641,42 @@ func randomArgs(r *rand.Rand, l *ref.LL) []string {
 
 // ---------------------------------------------------------------------------
 
-var bodyRuns atomic.Int64
+// callTrace is the ordered record of the side effects of one call: the id of
+// every c04-init form evaluated and "body" for every entry into the body.
+var callTrace []string
 
 type markFn struct {
 	slip.Function
 }
 
 func (f *markFn) Call(s *slip.Scope, args slip.List, depth int) slip.Object {
-	bodyRuns.Add(1)
+	callTrace = append(callTrace, "body")
 	return nil
 }
 
-const markName = "c04-mark"
+// initFn is (c04-init N v...): records N in the trace; returns N, or the list
+// (N v...) when given further arguments.
+type initFn struct {
+	slip.Function
+}
+
+func (f *initFn) Call(s *slip.Scope, args slip.List, depth int) slip.Object {
+	if len(args) == 0 {
+		return nil
+	}
+	callTrace = append(callTrace, sl.Show(args[0]))
+	if len(args) == 1 {
+		return args[0]
+	}
+	out := make(slip.List, len(args))
+	copy(out, args)
+	return out
+}
+
+const (
+	markName = "c04-mark"
+	initName = "c04-init"
+)
 
 func defineMark() {
 	if slip.UserPkg.GetFunc(markName) != nil {
@@ -591,7 +688,16 @@ func defineMark() {
 			f.Self = &f
 			return &f
 		},
-		&slip.FuncDoc{Name: markName, Return: "nil", Text: "harness marker: counts entries into a function body"},
+		&slip.FuncDoc{Name: markName, Return: "nil", Text: "harness marker: records an entry into a function body"},
+		&slip.UserPkg)
+	slip.Define(
+		func(args slip.List) slip.Object {
+			f := initFn{Function: slip.Function{Name: initName, Args: args}}
+			f.Self = &f
+			return &f
+		},
+		&slip.FuncDoc{Name: initName, Return: "object", Text: "harness marker: records the evaluation of an init form",
+			Args: []*slip.DocArg{{Name: "id"}, {Name: "&rest"}, {Name: "values"}}},
 		&slip.UserPkg)
 }
 
@@ -678,28 +784,62 @@ func situation(c *Case, res *ref.Result, name, kind string) string {
 	return note
 }
 
+// outerOf gives the variables of the scope a route's function is created in:
+// with Ambient the lambda routes build the lambda inside the let, a defun is
+// made at top level and sees none of them.
+func outerOf(c *Case, route string) map[string]string {
+	if !c.Ambient {
+		return nil
+	}
+	switch route {
+	case "defun", "compiled", "symcall":
+		return nil
+	}
+	out := map[string]string{}
+	names, kinds := c.LL.Names()
+	for i, n := range names {
+		if kinds[i] != "req" {
+			out[n] = strconv.Itoa(ambientBase + i)
+		}
+	}
+	return out
+}
+
 func execLam(x *fw.Ctx, c Case) {
 	l := c.LL
-	res := ref.Bind(l, c.Args)
 	names, kinds := l.Names()
+	first := ref.Bind(l, c.Args, nil)
 	x.Cover("A:block:" + c.Block)
-	x.Cover("A:class:" + res.Class + map[bool]string{true: ":" + res.Why, false: ""}[res.Why != ""])
+	x.Cover("A:class:" + first.Class + map[bool]string{true: ":" + first.Why, false: ""}[first.Why != ""])
 	x.Cover(fmt.Sprintf("A:args-len:%d", len(c.Args)))
 	x.Cover(fmt.Sprintf("A:shape req=%d opt=%d rest=%t keys=%d aux=%t", len(l.Req), len(l.Opt), l.Rest != "", len(l.Keys), 0 < len(l.Aux)))
-	switch res.Class {
-	case ref.TooFew:
-		x.Cover("avoided-minority:too-few-arguments")
+	if c.Ambient {
+		x.Cover("A:caller-binds-same-names")
 	}
-	obs := map[string]any{"lambda-list": l.Text(), "args": c.Args, "prescribed": res.Class, "why": res.Why, "values": res.Vals}
+	for _, a := range c.Args {
+		if a == "nil" || a == "t" {
+			x.Cover("A:args-with-nil-or-t")
+			break
+		}
+	}
+	obs := map[string]any{"lambda-list": l.Text(), "args": c.Args, "prescribed": first.Class, "why": first.Why, "values": first.Vals, "trace": first.Trace}
 	routeObs := map[string]string{}
 	obs["routes"] = routeObs
 	x.Observe(obs)
 
 	for _, route := range routes {
+		res := ref.Bind(l, c.Args, outerOf(&c, route))
+		if res.ForwardRef != "" && c.Ambient && outerOf(&c, route) == nil {
+			// a top-level defun whose init form names a variable the CALLER
+			// binds: whether the caller's variable is visible there is a
+			// question of free-variable scoping (C01), not of argument binding
+			x.Cover("A:outside-property:free-variable-of-an-init-form-in-a-defun-called-where-the-caller-binds-it")
+			continue
+		}
 		fname := "c04fn"
 		src := program(&c, route, fname)
 		scope := slip.NewScope()
-		before := bodyRuns.Load()
+		callTrace = callTrace[:0]
 		var (
 			out slip.Object
 			err *sl.Err
@@ -709,7 +849,13 @@ func execLam(x *fw.Ctx, c Case) {
 		} else {
 			out, err = sl.Eval(scope, src)
 		}
-		ran := bodyRuns.Load() - before
+		trace := append([]string{}, callTrace...)
+		ran := 0
+		for _, t := range trace {
+			if t == "body" {
+				ran++
+			}
+		}
 		if route == "defun" || route == "compiled" || route == "symcall" {
 			slip.UserPkg.Undefine(fname)
 		}
@@ -718,13 +864,7 @@ func execLam(x *fw.Ctx, c Case) {
 		if err != nil {
 			routeObs[route] = "condition " + err.String()
 		} else {
-			routeObs[route] = sl.Show(out)
-		}
-		if err != nil && (route == "funcall" || route == "symcall") && len(c.Args) == 0 && strings.HasPrefix(err.Msg, "Too few arguments to funcall") {
-			// funcall itself refuses a call with no arguments for the
-			// function: judged and reported by part B (builtin=common-lisp:funcall)
-			x.Cover("avoided:funcall-with-zero-arguments(reported by part B)")
-			continue
+			routeObs[route] = sl.Show(out) + " trace " + strings.Join(trace, ",")
 		}
 		if err != nil && err.Internal {
 			x.Fail("A internal-fault class="+res.Class, "%s => %s", src, err)
@@ -744,6 +884,32 @@ func execLam(x *fw.Ctx, c Case) {
 					src, l.Text(), len(c.Args), routeObs[route])
 			default:
 				x.Cover("A:rejected:" + res.Class)
+			}
+			continue
+		}
+		if res.UnboundRead != "" && res.Class == ref.Bound {
+			// the init form of res.UnboundRead reads a variable that is not
+			// bound when it is evaluated: a later parameter is not visible
+			switch {
+			case err != nil && ran == 0:
+				x.Cover("A:init-form-reading-a-later-parameter-rejected")
+			case err != nil:
+				x.Fail("A init-reads-later-parameter body-failed", "%s: %s", src, err)
+			default:
+				got, _ := out.(slip.List)
+				seen := ""
+				for i, n := range names {
+					if n == res.UnboundRead && i < len(got) {
+						seen = sl.Show(got[i])
+					}
+				}
+				if seen == res.Later {
+					x.Fail("A init-form-sees-later-parameter kind="+kindOf(l, res.UnboundRead),
+						"%s: the init form of %s is evaluated before the later parameter it names is bound (parameters are bound left to right), yet it saw the later parameter's value: %s = %s [all: got %s]",
+						src, res.UnboundRead, res.UnboundRead, seen, sl.Show(out))
+				} else {
+					x.Fail("A init-reads-unbound-variable no-condition", "%s: the init form of %s reads an unbound variable, yet the call returned %s", src, res.UnboundRead, sl.Show(out))
+				}
 			}
 			continue
 		}
@@ -774,7 +940,6 @@ func execLam(x *fw.Ctx, c Case) {
 			continue
 		}
 		okAll := true
-		wrong := map[string]bool{}
 		for i, n := range names {
 			want, pinned := res.Vals[n]
 			if !pinned {
@@ -782,14 +947,28 @@ func execLam(x *fw.Ctx, c Case) {
 			}
 			if g := sl.Show(got[i]); g != want {
 				okAll = false
-				wrong[n] = true
-				if dependsOnWrong(l, n, wrong) {
-					// a consequence of an earlier wrong parameter, not a second defect
-					x.Cover("A:skipped:init-form-reads-a-wrongly-bound-parameter")
+				if n == res.ForwardRef && g == res.Later {
+					x.Fail("A init-form-sees-later-parameter kind="+kinds[i],
+						"%s: the init form of %s names %s, a LATER parameter, which is not bound yet when the form is evaluated (parameters are bound left to right), so it means the enclosing variable (%s); it saw the later parameter's value instead: %s = %s [all: got %s]",
+						src, n, "a parameter after it", want, n, g, sl.Show(out))
 					continue
 				}
 				x.Fail(fmt.Sprintf("A bind=%s situation=%s", kinds[i], situation(&c, res, n, kinds[i])),
 					"%s: parameter %s (%s) is %s, the lambda list %s prescribes %s [all: got %s]", src, n, kinds[i], g, l.Text(), want, sl.Show(out))
+			}
+		}
+		if res.Class == ref.Bound {
+			// init forms: evaluated exactly once each, only for parameters
+			// without an argument, in lambda-list order, all before the body
+			want := strings.Join(append(append([]string{}, res.Trace...), "body"), ",")
+			if g := strings.Join(trace, ","); g != want {
+				okAll = false
+				x.Fail("A init-form-evaluation "+traceDiff(res.Trace, trace),
+					"%s: side effects of the call were [%s], the lambda list %s prescribes [%s] (init forms of absent parameters once each, left to right, none for supplied parameters, then the body)",
+					src, g, l.Text(), want)
+			} else if 0 < len(res.Trace) {
+				x.Cover("A:init-forms-evaluated-in-order")
+				x.CoverN("A:init-form-evaluations-observed", len(res.Trace))
 			}
 		}
 		if okAll {
@@ -797,29 +976,60 @@ func execLam(x *fw.Ctx, c Case) {
 				x.Cover("A:unpinned-accepted-correct:" + res.Why)
 			} else {
 				x.Cover("A:bound-correct")
+				if res.Why != "" {
+					x.Cover("A:bound-correct:" + res.Why)
+				}
 			}
 		}
 	}
 }
 
-var nameRe = regexp.MustCompile(`[a-z]+`)
-
-// dependsOnWrong tells whether the init form of parameter n reads a
-// parameter already found wrongly bound.
-func dependsOnWrong(l *ref.LL, n string, wrong map[string]bool) bool {
-	for _, ps := range [][]ref.Param{l.Opt, l.Keys, l.Aux} {
-		for _, p := range ps {
-			if p.Name != n {
-				continue
-			}
-			for _, t := range nameRe.FindAllString(p.Init, -1) {
-				if t != n && wrong[t] {
-					return true
-				}
-			}
+func kindOf(l *ref.LL, name string) string {
+	names, kinds := l.Names()
+	for i, n := range names {
+		if n == name {
+			return kinds[i]
 		}
 	}
-	return false
+	return "?"
+}
+
+// traceDiff classifies how the observed init-form evaluations differ from
+// the prescribed ones.
+func traceDiff(want, got []string) string {
+	var g []string
+	for _, t := range got {
+		if t != "body" {
+			g = append(g, t)
+		}
+	}
+	cnt := map[string]int{}
+	for _, t := range g {
+		cnt[t]++
+	}
+	wantSet := map[string]bool{}
+	for _, t := range want {
+		wantSet[t] = true
+	}
+	for _, t := range g {
+		if 1 < cnt[t] {
+			return "evaluated-twice"
+		}
+	}
+	for _, t := range g {
+		if !wantSet[t] {
+			return "evaluated-for-a-supplied-parameter"
+		}
+	}
+	for _, t := range want {
+		if cnt[t] == 0 {
+			return "not-evaluated"
+		}
+	}
+	if strings.Join(g, ",") != strings.Join(want, ",") {
+		return "out-of-order"
+	}
+	return "after-the-body"
 }
 
 // callFeatures is the coarse description of a valid call used in the
@@ -827,6 +1037,9 @@ func dependsOnWrong(l *ref.LL, n string, wrong map[string]bool) bool {
 func callFeatures(l *ref.LL, args []string) string {
 	npos := len(l.Req) + len(l.Opt)
 	f := "keys=" + map[bool]string{true: "y", false: "n"}[l.HasKey] + " rest=" + map[bool]string{true: "y", false: "n"}[l.Rest != ""]
+	if l.HasKey && len(l.Keys) == 0 && !l.Allow {
+		f += " key-without-names"
+	}
 	if npos < len(args) {
 		declared := map[string]bool{}
 		for _, k := range l.Keys {
